@@ -155,6 +155,14 @@ def parse_aa55_request(d: bytes) -> dict:
 def split_tcp_stream(buf: bytearray):
     """Yield complete MBAP frames from a stream buffer (consumes them)."""
     while len(buf) >= 6:
+        if buf[0:2] == b"\xaa\x55" and len(buf) >= 7:      # an AA55 command written to the stream (ES family on port 502)
+            ln = 3 + buf[6]                                 # bytes after the first 6: length byte, payload, 2 checksum bytes
+            if len(buf) < 6 + ln:
+                return
+            fr = bytes(buf[:6 + ln])
+            del buf[:6 + ln]
+            yield fr
+            continue
         ln = int.from_bytes(buf[4:6], "big")
         if len(buf) < 6 + ln:
             return
